@@ -122,6 +122,10 @@ def _nonfinite_temps(r):
             for k, v in reg.temp.items():
                 if not np.all(np.isfinite(np.asarray(v, dtype=float))):
                     bad.append('asm%d.region%d.%s' % (a.id, j, k))
+            pt = getattr(reg, 'pin_temps', None)
+            if pt is not None and not np.all(np.isfinite(
+                    np.asarray(pt, dtype=float))):
+                bad.append('asm%d.region%d.pin_temps' % (a.id, j))
         for nm in ('avg_coolant_temp', 'avg_coolant_int_temp',
                    'avg_duct_mw_temp'):
             try:
@@ -1811,22 +1815,22 @@ assert len(MUT_BY_ID) == len(CATALOG), 'duplicate mutator id'
 def cases(tier, seed):
     quick = (tier == 'quick')
     out = []
-    n_single = 60 if quick else 500
-    n_core = 6 if quick else 50
+    n_single = 60 if quick else 1200
+    n_core = 6 if quick else 100
     for i in range(n_single):
         out.append({'name': 'A-single-%d' % i, 'kind': 'valid',
                     'sub': 'single', 'seed': [seed, 1, i]})
     for i in range(n_core):
         out.append({'name': 'A-core-%d' % i, 'kind': 'valid', 'sub': 'core',
                     'seed': [seed, 2, i]})
-    n_opt = 3 if quick else 12
+    n_opt = 3 if quick else 24
     for o in OPTIONS:
         if o['id'] == 'none':
             continue
         for j in range(n_opt):
             out.append({'name': 'A-opt-%s-%d' % (o['id'], j), 'kind': 'option',
                         'opt': o['id'], 'seed': [seed, 3, j]})
-    n_rep = 3 if quick else 10
+    n_rep = 3 if quick else 24
     for m in CATALOG:
         if quick and m.get('thorough_only'):
             continue
@@ -1834,7 +1838,7 @@ def cases(tier, seed):
         if quick and 'core2' in m['needs']:
             n = 2          # seven-assembly bases are the expensive ones
         if m['id'] == 'Setup/axial_mesh_size=tiny':
-            n = 1 if quick else 3    # 2e5 guarded mesh calls each
+            n = 1 if quick else 4    # 2e5 guarded mesh calls each
         for j in range(n):
             out.append({'name': 'B-%s-%d' % (m['id'], j), 'kind': 'mutant',
                         'mut': m['id'], 'seed': [seed, 4, j]})
@@ -2060,6 +2064,9 @@ FINDINGS = {
     'F1823': 'axial_mesh_size has no useful lower bound: 1e-12 m is taken '
              'over and the mesh construction needs 5e11 planes (F4\'s '
              'repair 074c855 only stops steps that round to zero)',
+    'F1824': 'clad_thickness == pin radius accepted (strict "<" in '
+             'check_pin): with a fuel model the clad inner radius is 0, clad '
+             'temperatures are nan / the run stops after the first step',
     'F1801': 'wire_pitch = 0 with wire_diameter > 0 accepted: '
            'ZeroDivisionError in the friction / flow-split correlations',
     'F1802': 'SpacerGrid loss_coeff = 0 is treated as "not given": '
@@ -2223,6 +2230,9 @@ def _rules():
          and (_bad(o, *_NONRUN)
              or (o == 'exception:TypeError'
                  and w == 'reactor.py:_setup_asm_axial_mesh_req')))
+    rule('F1824', lambda k, o, w: k.get('mutator') ==
+         'clad_eq_radius:fuel_model'
+         and o in ('nonfinite', 'rejected_late'))
     # any other accepted input (valid ones included) whose step requirement
     # is not positive: same missing guard in the mesh construction
     rule('F4', lambda k, o, w: o == 'non_progress:dz<=0')
